@@ -155,6 +155,10 @@ class C17(Check):
                   b"4ADT1BtbxqEWeMKp9GgPr2NeyJXXtNxvoDawpyA4WpzFcGcoHUvXeijE66DNfohE9r1bQYaBiQjEtKE7CtkTdLwiDznFzra",
                   b"base64:AAAA", b"AAAA", b"=?utf-8?", b"%30%78", b"\\x00", b"0b1010", b"0o17", b"#00ff00"):
             add("keccak " + t.hex(), "text-that-looks-like-an-encoding")
+        # the domain-separation salts of the source as messages and as message prefixes (a hash that treats them specially)
+        for salt in (b"view_tag", b"SubAddr\x00", b"commitment_mask", b"amount", b"ViewTag", b"subaddr"):
+            for tail in (b"", b"\x00", b"\x01" * 32, b"\x02" * 32 + b"\x00", b"\x03" * 40):
+                add("keccak " + (salt + tail).hex(), "source-salt-as-message")
         for n in range(0, 1101):
             boundary = n % 136 in (133, 134, 135, 0, 1, 2, 3)
             cls = "len-boundary" if boundary else "len"
